@@ -516,11 +516,19 @@ def twin_keys(ctx, rng, rounds, steps):
     for _ in range(rounds):
         k = keys_[rng.randrange(len(keys_))]
         t1, t2 = rng.sample(bypoint[k], 2)
-        Qp = k[1]
+        same_curve = rng.random() < 0.4
+        if same_curve:
+            # the other family: two DIFFERENT keys on ONE curve object (state kept on the class or the curve instead of the key)
+            t2 = t1
         side = []
-        for t in (t1, t2):
+        for si_, t in enumerate((t1, t2)):
             c, dom = sigs.toy_lib_curve(t)
-            d = next(dd for dd in range(1, dom.n) if dom.curve.mul(dd, dom.G) == Qp)
+            if same_curve:
+                d = (rng.randrange(1, dom.n), None)[0] if si_ == 0 else next(x for x in range(1, dom.n) if x != side[0]["d"])
+                Qp = dom.curve.mul(d, dom.G)
+            else:
+                Qp = k[1]
+                d = next(dd for dd in range(1, dom.n) if dom.curve.mul(dd, dom.G) == Qp)
             msg = b"twin %d" % rng.randrange(1000)
             e = ecdsa_ref.digest_to_e(dom, hf(msg).digest(), True)
             while True:
@@ -537,14 +545,14 @@ def twin_keys(ctx, rng, rounds, steps):
                 vk = ecdsa.VerifyingKey.from_string(sec1.encode_point(dom, Qp, "uncompressed"), c, hf)
             else:
                 vk = ecdsa.SigningKey.from_secret_exponent(d, c, hf).verifying_key
-            side.append(dict(c=c, dom=dom, d=d, msg=msg, good=good, bad=bad, vk=vk, raw=sec1.encode_point(dom, Qp, "raw")))
+            side.append(dict(c=c, dom=dom, d=d, msg=msg, good=good, bad=bad, vk=vk, raw=sec1.encode_point(dom, Qp, "raw"), Q=Qp))
         hist = []
-        wit = dict(E1=t1.curve.key(), E2=t2.curve.key(), Q=Qp)
-        ctx.case("twin_keys", key="%r|%r" % (t1.curve.key(), t2.curve.key()), nontrivial=True, sample=dict(wit) if ctx.want("twin_keys") else None)
+        wit = dict(E1=t1.curve.key(), E2=t2.curve.key(), Q1=side[0]["Q"], Q2=side[1]["Q"], same_curve=same_curve)
+        ctx.case("twin_keys", key="%r|%r|%s" % (t1.curve.key(), t2.curve.key(), same_curve), nontrivial=True, sample=dict(wit) if ctx.want("twin_keys") else None)
         for _s in range(steps):
             i = rng.randrange(2)
             o = side[i]
-            op = rng.choice(("precompute", "precompute_lazy", "verify", "verify", "verify_bad", "to_string", "eq_fresh", "ne_other", "pickle", "point"))
+            op = rng.choice(("precompute", "precompute_lazy", "verify", "verify", "verify_bad", "to_string", "eq_fresh", "ne_other", "pickle", "point", "eq_types"))
             hist.append((i, op))
             try:
                 if op in ("precompute", "precompute_lazy"):
@@ -563,6 +571,18 @@ def twin_keys(ctx, rng, rounds, steps):
                 elif op == "eq_fresh":
                     fresh_vk = ecdsa.VerifyingKey.from_string(o["raw"], o["c"], hf)
                     got, want = (o["vk"] == fresh_vk, fresh_vk == o["vk"], o["vk"] != fresh_vk), (True, True, False)
+                elif op == "eq_types":
+                    # comparisons with other kinds of objects answer "not equal" (never raise); equal keys that hash at all hash alike
+                    fresh_vk = ecdsa.VerifyingKey.from_string(o["raw"], o["c"], hf)
+                    others = (None, 5, b"x", o["raw"], (1, 2), o["vk"].pubkey.point, o["c"], object())
+                    got = tuple((o["vk"] == z, o["vk"] != z) for z in others)
+                    want = tuple((False, True) for z in others)
+                    try:
+                        h1, h2 = hash(o["vk"]), hash(fresh_vk)
+                        if h1 != h2:
+                            got = "equal keys hash differently"
+                    except TypeError:
+                        pass
                 elif op == "ne_other":
                     got, want = (o["vk"] == side[1 - i]["vk"], o["vk"] != side[1 - i]["vk"]), (False, True)
                 elif op == "pickle":
@@ -574,13 +594,13 @@ def twin_keys(ctx, rng, rounds, steps):
                     m = rng.randrange(2, o["dom"].n)
                     R = pt * m
                     got = (pt.curve() == o["c"].curve, (pt.x(), pt.y()), None if R is INFINITY else (R.x(), R.y()))
-                    want = (True, Qp, cv.mul(m, Qp))
+                    want = (True, o["Q"], cv.mul(m, o["Q"]))
             except Exception as e:
                 got, want = "raised %s: %s" % (type(e).__name__, e), "no exception"
             ctx.count("twin_keys.ops")
             if got != want:
                 ctx.violation("key_affected_by_history_of_a_key_on_another_curve:" + op,
-                              "curves %r / %r sharing the point %r: after %r, %s on key %d gives %r, expected %r" % (t1.curve.key(), t2.curve.key(), Qp, hist, op, i, got, want), dict(wit, history=hist))
+                              "%s: after %r, %s on key %d gives %r, expected %r" % ("two keys %r / %r on the curve %r" % (side[0]["Q"], side[1]["Q"], t1.curve.key()) if same_curve else "curves %r / %r sharing the point %r" % (t1.curve.key(), t2.curve.key(), side[0]["Q"]), hist, op, i, got, want), dict(wit, history=hist))
                 break
 
 
